@@ -171,6 +171,17 @@ def _exec_long(plan):
           if got.total[j + 1] < got.total[j] - 1e-9:
             raise Violation(ID, 'percentile-decreasing', 'busy source: percentiles %r decrease' % (got.total[1:],))
         reports += 1
+    # the workload changes: far more samples in a different range than the reservoir holds, then one more report
+    for _ in range(40000):
+      rec(rnd.uniform(100.0, 101.0))
+    agg = VarzAggregator.Aggregate(data, VarzReceiver.VARZ_METRICS)
+    got = agg[METRIC['t']].get(('busy', None))
+    res = [v for s_, v in data[METRIC['t']].items() if s_.service == 'busy']
+    retained = list(res[0].data)
+    lo, hi = min(retained), max(retained)
+    for p_ in (got.total[1:] if got is not None else [float('nan')]):
+      if not (lo - 1e-9 <= p_ <= hi + 1e-9):
+        raise Violation(ID, 'percentile-out-of-range', 'after the source\'s values moved to another range: report has percentile entry %r outside the retained range [%r, %r]' % (p_, lo, hi))
   return Outcome(nontrivial=['long-lived busy source'], classes=['long_stream'], counts={'long_stream_samples': plan['long_stream'] + 1500})
 
 
